@@ -56,7 +56,7 @@ def r1_forwarding(ctx) -> None:
 
 
 def run(ctx) -> None:
-    ctx.rule("C15.R1", "every override in hugr.build uses each parameter that the implementation it overrides uses", floor=6)
+    ctx.rule("C15.R1", "every override in hugr.build uses each parameter that the implementation it overrides uses", floor=2)
     ctx.rule("C15.R2", "TrackedDfg.add builds the node by add_op(com.op, *wires, metadata=metadata) with ints replaced by tracked wires in order", floor=3)
     ctx.rule("C15.R3", "after the node exists each integer argument's index is rebound to the new node's output at the argument's position", floor=2)
     ctx.rule("C15.R4", "tracked is an append-only list: untrack sets None, no removal; outputs filter None in index order; bad indices raise IndexError", floor=7)
